@@ -770,7 +770,13 @@ func (s *SMT) GetMerkleProof(k []byte) ([]*lib.Node, lib.ErrorI) {
 // VerifyProof verifies a Sparse Merkle Tree proof for a given value
 // reconstructing the root hash and comparing it against the provided root hash
 // depending on the proof type (membership or non-membership)
-func (s *SMT) VerifyProof(k []byte, v []byte, validateMembership bool, root []byte, proof []*lib.Node) (bool, lib.ErrorI) {
+func (s *SMT) VerifyProof(k []byte, v []byte, validateMembership bool, root []byte, proof []*lib.Node) (valid bool, e lib.ErrorI) {
+	// proofs are untrusted input: a structurally malformed proof must be rejected, never crash the verifier
+	defer func() {
+		if r := recover(); r != nil {
+			valid, e = false, ErrInvalidMerkleTreeProof()
+		}
+	}()
 	// shorthand for the length of the proof slice
 	proofLen := len(proof)
 	// the proof slice must contain at least two nodes: the leaf node and its sibling
@@ -879,6 +885,12 @@ func (s *SMT) VerifyProof(k []byte, v []byte, validateMembership bool, root []by
 	// navigates the tree downward
 	if err := smt.traverse(); err != nil {
 		return false, err
+	}
+	// the proof must be about the target key: the traversal has to end at the node the proof starts from (the leaf
+	// for membership, the would-be insertion point for non-membership), otherwise a valid proof for a different key
+	// could be passed off as a proof for this one
+	if !bytes.Equal(smt.current.Key.bytes(), proof[0].Key) {
+		return false, nil
 	}
 	// Verify whether the key exists in the tree and what kind of proof is being validated
 	// (membership or non-membership).
